@@ -181,6 +181,17 @@ def run_case(base, case, acc, force_dense=False):
             # from here on the history runs on a model the known optlang mechanism damaged
             state["tainted"] = "C01/ctx.exit/readd-fails/glpk_exact-objects-of-glpk-class-after-copy"
             acc.count("histories_tainted_by_known_optlang_mechanism")
+        # a reaction that is outside the model was edited while a context is open: the edit is nobody's to
+        # undo, but undo entries recorded earlier in that block may still speak about the reaction
+        if name.startswith("detached.") and exc is None and H.entered and isinstance(desc, dict) and name != "detached.copy":
+            state.setdefault("detached_edits", []).append((desc.get("id"), len(H.entered)))
+        if name == "ctx.exit" and exc is not None and not state.get("tainted") and isinstance(desc, dict):
+            left = desc.get("depth", 0) + 1  # the block that has just been left
+            if any(d >= left for _rid, d in state.get("detached_edits", [])):
+                state["tainted"] = "C01/ctx.exit/raised/reaction-edited-outside-the-model-while-its-undo-entries-were-pending"
+                acc.count("histories_tainted_by_an_untracked_edit_of_a_detached_reaction")
+        if name == "ctx.exit" and isinstance(desc, dict):
+            state["detached_edits"] = [(r_, d) for r_, d in state.get("detached_edits", []) if d <= desc.get("depth", 0)]
         if not dense and k != n_steps and k != -1:
             acc.count("steps_unobserved_sparse")
             return True
@@ -261,6 +272,31 @@ def run_probe(pr, acc):
 
     model = _probe_model()
     exc = None
+    if pr["name"] == "detached-reaction-edited-in-context":
+        # the minimal form of what a thorough run met: set the reaction from a string (creates a metabolite,
+        # records relative undo entries), remove the reaction, flip it while it is outside the model, leave
+        try:
+            with model:
+                r = model.reactions.R
+                r.reaction = "0.5 new_c + a_c --> 3 new_c"
+                model.remove_reactions([r])
+                r *= -1
+        except Exception as e:
+            exc = e
+        acc.ev()
+        acc.count("probes_run")
+        try:
+            model.solver.update()
+            probs = observe.fba_problems(model)
+        except Exception as e:
+            probs = [f"observer could not read the model: {type(e).__name__}: {str(e)[:120]}"]
+        if exc is not None and probs:
+            acc.violation(
+                "C01/ctx.exit/raised/reaction-edited-outside-the-model-while-its-undo-entries-were-pending",
+                f"with model: R.reaction = '...'; remove_reactions([R]); R *= -1 -> exit raised {type(exc).__name__}; afterwards: {probs[0]}",
+                {"probe": pr["name"], "exit_exception": hist.describe_exc(exc), "problems": probs[:4]},
+            )
+        return
     try:
         with model:
             model.objective = "R"  # its undo entry holds an Objective over the current solver's variables
